@@ -337,6 +337,8 @@ def gen_class(rng, i, ncls, classes, names_used, allow_ph, uni, shared):
     c["jsdata"] = rng.random() < 0.15
     c["cssdata"] = rng.random() < 0.2
     c["root"] = rng.choice(["div", "div", "multi", "text", "bare"])
+    if rng.random() < 0.2:
+        c["root"] = rng.choice(["comment", "ws", "guard", "guard"])      # rendered, but (sometimes) without any html
     return c
 
 
@@ -410,6 +412,8 @@ def gen_nodes(rng, usable, depth, in_class, allow_ph, budget, decl, slot_ok=True
             sub = depth > 0 and rng.random() < 0.55
             if k < 0.45:
                 out.append(["c", j, gen_nodes(rng, usable, depth - 1, in_class, allow_ph, budget, decl, slot_ok=False) if sub else None])
+                if decl.get("roots", {}).get(j) == "guard":
+                    out[-1].append(rng.choice(["yes", "no", "no"]))
             elif k < 0.7:
                 out.append(["cf", j, gen_fills(rng, decl[j], usable, depth, in_class, allow_ph, budget, decl)])
             elif k < 0.87:
@@ -459,12 +463,14 @@ def gen_prog(rng, uni=None, ph_in_classes=None):
     for i in range(ncls):
         classes.append(gen_class(rng, i, ncls, classes, names, ph_in_classes, uni, shared))
     # templates, last class first: a class uses only classes with a higher index, whose slots are then known
-    decl = {}
+    decl = {"roots": {i: c["root"] for i, c in enumerate(classes)}}
     for i in range(ncls - 1, -1, -1):
         usable = list(range(i + 1, ncls))
         budget = [rng.randint(0, 4)]
         tpl = gen_nodes(rng, usable, 2, True, ph_in_classes, budget, decl)
         add_slots(rng, tpl, usable, decl, [2])
+        if classes[i]["root"] in ("comment", "ws"):
+            tpl = []
         classes[i]["tpl"] = tpl
         decl[i] = class_slots(classes[i])
     # a class with bases may inherit its TEMPLATE too (tpl None): the donor is found by Python's MRO on plain stand-in classes;
@@ -503,10 +509,11 @@ def nodes_src(nodes):
         if k == "t":
             s.append(nd[1])
         elif k == "c":
+            show = " show=%s" % nd[3] if len(nd) > 3 and nd[3] else ""      # ["c", j, body, "yes"|"no"]: kwarg of a guard-root class
             if nd[2] is None:
-                s.append('{%% component "c04_%d" / %%}' % nd[1])
+                s.append('{%% component "c04_%d"%s / %%}' % (nd[1], show))
             else:
-                s.append('{%% component "c04_%d" %%}%s{%% endcomponent %%}' % (nd[1], nodes_src(nd[2])))
+                s.append('{%% component "c04_%d"%s %%}%s{%% endcomponent %%}' % (nd[1], show, nodes_src(nd[2])))
         elif k == "cf":
             s.append('{%% component "c04_%d" %%}%s{%% endcomponent %%}' % (nd[1], fills_src(nd[2])))
         elif k == "dyn":
@@ -536,9 +543,21 @@ def nodes_src(nodes):
     return "".join(s)
 
 
+EMPTY_ROOTS = ("comment", "ws", "guard")
+VIS = [False]     # True only during the REFERENCE rendering: components without output then print [[~cid]]
+
+
 def class_tpl(i, c):
     body = nodes_src(c["tpl"])
     tag = "[[{{ cid }}]]"      # get_context_data of every generated class returns its own index
+    ghost = "{% if vis %}[[~{{ cid }}]]{% endif %}"     # nothing in a real render
+    # components that are rendered but produce NO html (behaviour-only template, white space, guard false)
+    if c["root"] == "comment":
+        return ghost + "{# behaviour only: brings js / css / Media #}"
+    if c["root"] == "ws":
+        return ghost + " \n\t "
+    if c["root"] == "guard":
+        return "{%% if show %%}<div>%s%s</div>{%% elif vis %%}[[~{{ cid }}]]{%% endif %%}" % (tag, body)
     if c["root"] == "div":
         return "<div>%s%s</div>" % (tag, body)
     if c["root"] == "multi":
@@ -606,6 +625,8 @@ def features(prog):
         f.append("two-bases-inherited-inline")
     if any(c.get("tpl") is None for c in cs):
         f.append("inherited-template")
+    if any(c.get("root") in EMPTY_ROOTS for c in cs):
+        f.append("class-without-html-output")
     if any(isinstance(c.get("mcss"), dict) and len({x for v in c["mcss"].values() for x in v}) < sum(len(v) for v in c["mcss"].values()) for c in cs):
         f.append("css-file-under-2-media")
     if any(isinstance(x, list) for c in cs for x in list(c["mjs"]) + (c["mcss"] if isinstance(c["mcss"], list) else [])):
@@ -656,9 +677,16 @@ class Built:
         self.n = _prog_counter[0]
         mod = fake_module("verif_c04_p%d" % self.n)
         self.classes = []
+        inst = self.inst = []     # one entry per component instance that was created (get_context_data call), independent of markers
+
+        def gcd(k):
+            def get_context_data(self_, *a, show=True, **kw):
+                inst.append(k)
+                return {"cid": k, "show": show, "vis": VIS[0]}
+            return get_context_data
         for i, c in enumerate(prog["classes"]):
             bases = tuple(self.classes[b] for b in (c.get("base"), c.get("base2")) if b is not None) or (Component,)
-            attrs = {"__module__": mod, "get_context_data": (lambda k: lambda self, *a, **kw: {"cid": k})(i)}
+            attrs = {"__module__": mod, "get_context_data": gcd(i)}
             if c.get("tpl") is not None:
                 attrs["template"] = class_tpl(i, c)
             if c["js"] is not None or c.get("base") is None:
@@ -680,9 +708,11 @@ class Built:
             if c["cssdata"]:
                 attrs["get_css_data"] = (lambda k: lambda self, *a, **kw: {"c": k})(i)
             self.classes.append(type(c["name"], bases, attrs))
-        self.page_cls = type("C04Page", (Component,), {"template": "[[P]]" + page_src(prog), "__module__": mod})
+        self.page_cls = type("C04Page", (Component,), {"template": "[[P]]" + page_src(prog), "__module__": mod, "get_context_data": gcd("P")})
         # the same page with its content handed in from Python as a slot
-        self.page2_cls = type("C04Page2", (Component,), {"template": "[[P]]" + shell_src(prog, '{% slot "body" default / %}'), "__module__": mod})
+        self.page2_cls = type("C04Page2", (Component,), {"template": "[[P]]" + shell_src(prog, '{% slot "body" default / %}'), "__module__": mod,
+                                                         "get_context_data": gcd("P")})
+        self._ref = False
         self.ctx = dict(CTX)
         for i, cls in enumerate(self.classes):
             self.ctx["k%d" % i] = cls
@@ -700,6 +730,28 @@ class Built:
                 pass
         import sys
         sys.modules.pop("verif_c04_p%d" % self.n, None)
+
+    def has_ghosts(self):
+        """Can some generated class be rendered without producing any html?"""
+        return any(c.get("root") in EMPTY_ROOTS for c in self.prog["classes"])
+
+    def reference(self):
+        """Instances of the page content in document order, as [(class index | 'D', produces html?)]: read from a REFERENCE
+        rendering of the same page in which components without output print [[~cid]] (plain template render, nothing of the
+        dependency machinery is consulted). None when no class of the program can render to nothing."""
+        if self._ref is False:
+            self._ref = None
+            if self.has_ghosts():
+                from django.template import Context, Template
+                VIS[0], n0 = True, len(self.inst)
+                try:
+                    html = Template(nodes_src(self.prog["page"])).render(Context(dict(self.ctx)))
+                finally:
+                    VIS[0] = False
+                    del self.inst[n0:]
+                self._ref = [("D", True) if x == "D" else (int(x.lstrip("~")), not x.startswith("~"))
+                             for x in _vis_ref.findall(html) if x not in ("J", "C", "P")]
+        return self._ref
 
     # inline js / css of a class by PYTHON'S OWN attribute rule: the value set by the first class of type.mro() that sets
     # one (None = not set), computed from the generated program - never read from Component.js / Component.css
@@ -795,6 +847,7 @@ def render_paths(bu, typ, path):
 
 
 _vis = re.compile(r"\[\[(\d+|P|J|C|D)\]\]")
+_vis_ref = re.compile(r"\[\[(~?\d+|P|J|C|D)\]\]")
 
 
 def visible(html):
